@@ -5,6 +5,9 @@
 // Plan knobs read here (all optional):
 //   euid umask now tz amtime srckind(FILE_SEEK|FILE_PIPE|FILE_HALFSEEK) trunc errat
 //   outbuf write_fail_at write_errno fsfaults=call:n:errno,... canary=1 cwd
+// true if some header of the archive declares more than 4 MiB of output (such members are legitimately slow to decode)
+bool archive_declares_huge(const Bytes &arch, int64_t trunc);
+
 struct CliEnv {
 	SimFS fs;
 	SimSource src;
